@@ -144,6 +144,7 @@ type Sim struct {
 	lastMtime map[string]time.Time
 	earliest map[string]time.Time
 	rejectedIno map[string]uint64
+	flipsAfterStop int
 	rejectedAt map[string]int // name|hash -> wire sequence number at which a complete but corrupt staged copy of that version was last seen
 	voidBefore map[string]int // name|hash -> acknowledgements up to this sequence number are void AND the sender has been told so (failed verdict)
 	pollMismatch map[string]bool
@@ -671,7 +672,21 @@ func (s *Sim) StopSender(graceful bool, bound time.Duration) bool {
 			return true
 		default:
 		}
-		s.Pump(0) // keep serving requests without faults
+		// keep serving requests: the first flipsAfterStop data requests with a byte flipped in transit
+		// (validation failures in flight while stopping), the rest without faults
+		for {
+			p := s.Pending()
+			if len(p) == 0 {
+				break
+			}
+			f := Fault{}
+			if p[0].kind == "data" && s.flipsAfterStop > 0 {
+				s.flipsAfterStop--
+				f = Fault{Kind: XFlip, All: true}
+			}
+			s.Serve(p[0], f)
+			s.observe()
+		}
 		time.Sleep(100 * time.Millisecond)
 	}
 	return false
@@ -705,6 +720,7 @@ type Fault struct {
 	Kind int
 	K    int   // part index
 	J    int64 // byte position
+	All  bool  // XFlip: every part of the request is hit
 }
 
 // observeRejections looks for complete staged copies (<name>.full) whose bytes do not have the
@@ -882,7 +898,7 @@ func (s *Sim) serveData(r *req, f Fault) {
 			j := f.J % (end - beg)
 			reader = io.MultiReader(io.LimitReader(rd, j), &failReader{})
 		}
-		if f.Kind == XFlip && i == f.K%len(parts) {
+		if f.Kind == XFlip && (f.All || i == f.K%len(parts)) {
 			data, _ := io.ReadAll(rd)
 			if len(data) > 0 {
 				data[f.J%int64(len(data))] ^= 0x40
